@@ -648,6 +648,14 @@ def shard(ctx: Ctx) -> None:
         idx += 1
         if ctx.mine(idx):
             one(ctx, case, "backoff-ladder")
+    # long outage: far more than a thousand consecutive ordinary failures (a device unplugged for a day), every rung still at 60 s, and the
+    # session is established at the first attempt after the device is back
+    for v, w, dur in (({"addr": "literal", "noise": False, "zc": "library", "slow_cb": 0.0}, "refuse", 80000.0),
+                      ({"addr": "ip", "noise": True, "zc": "supplied", "slow_cb": 0.0}, "dns-fail", 75000.0),
+                      ({"addr": "local", "noise": False, "zc": "library", "slow_cb": 0.0}, "netunreach", 73000.0)):
+        idx += 1
+        if ctx.mine(idx):
+            one(ctx, {"variant": v, "hist": [["world", w], ["start"], ["run", dur], ["world", "ok"], ["run", 70.0], ["dev", "eof"], ["run", 1.0]]}, "long-outage")
     maxlen = 4 if ctx.thorough else 3
     for ln in range(1, maxlen + 1):
         for combo in itertools.product(range(len(ALPHABET)), repeat=ln):
